@@ -105,44 +105,101 @@ pub fn table_case_paths(rec: &mut Rec, server_id: &str, prefix: &str, paths: &[&
                     continue;
                 }
             }
+            dispatch_one(rec, &router, &log, &expected, m, u, server_id, &log_ops);
+        }
+    }
+}
+
+
+type Table = Vec<((u8, Vec<u8>), usize)>;
+
+/// one request through `handle_http_request`, with the oracle "exactly the first-registered handler for (method,
+/// abs_path) as the table stands NOW, once; else 404; stamped"
+fn dispatch_one(rec: &mut Rec, router: &HttpRoutes<u32>, log: &Arc<Mutex<Vec<usize>>>, expected: &Table, m: u8, u: &Vec<u8>, server_id: &str, log_ops: &[String]) {
+    let v11 = u.len() % 2 == 0;
+    let mut bytes = format!("{} ", method_name(m)).into_bytes();
+    bytes.extend_from_slice(u);
+    bytes.extend_from_slice(if v11 { b" HTTP/1.1\r\n\r\n" } else { b" HTTP/1.0\r\n\r\n" });
+    let req = match Request::try_from(&bytes, None) {
+        Ok(r) => r,
+        Err(_) => return,
+    };
+    log.lock().unwrap().clear();
+    let resp = router.handle_http_request(&req, &7u32);
+    let invoked = log.lock().unwrap().clone();
+    let mut out = Vec::new();
+    let _ = resp.write_all(&mut out);
+    // oracle: exactly the first-registered handler for (method, abs_path), once; else 404
+    let abs = req.uri().get_abs_path().as_bytes().to_vec();
+    let want: Option<usize> = expected.iter().find(|(k, _)| k.0 == m && k.1 == abs).map(|(_, id)| *id);
+    let op = format!("route req {} {} {}", method_name(m), if v11 { "1.1" } else { "1.0" }, hx(u));
+    let mut l = log_ops.to_vec();
+    l.push(op.clone());
+    let ok_invocation = match want {
+        Some(id) => invoked == vec![id],
+        None => invoked.is_empty() && resp.status() == StatusCode::NotFound,
+    };
+    let text = String::from_utf8_lossy(&out).to_string();
+    let stamped = text.contains(&format!("Server: {}\r\n", server_id))
+        && !text.contains("Server: handler-set\r\n")
+        && (resp.content_type() == micro_http::MediaType::ApplicationJson)
+        && (text.contains("Content-Type: application/json\r\n") || !text.contains("Content-Type:"));
+    if !ok_invocation || !stamped {
+        rec.oracle_fail("C17", &format!("dispatch: invoked {:?}, expected {:?}, stamped={}", invoked, want, stamped), &l);
+    }
+    if want.is_some() {
+        rec.count("dispatch:hit");
+    } else {
+        rec.count("dispatch:404");
+    }
+    let h = invoked.first().map(|i| i.to_string()).unwrap_or("-".into());
+    rec.op(&op, &format!("h={} resp={}", h, hx(&out)));
+}
+
+/// registrations and requests INTERLEAVED on one router: a route registered after the router has already dispatched
+/// (hits and misses) is found like any other, a refused duplicate changes nothing, and what was registered before
+/// stays reachable
+pub fn interleaved_case(rec: &mut Rec, server_id: &str, prefix: &str, paths: &[&str], steps: &[(bool, u8, usize)], uris: &[Vec<u8>]) {
+    rec.case("interleaved");
+    let log = Arc::new(Mutex::new(Vec::<usize>::new()));
+    let mut router: HttpRoutes<u32> = HttpRoutes::new(server_id.to_string(), prefix.to_string());
+    let op = format!("route new {} {}", hx(server_id.as_bytes()), hx(prefix.as_bytes()));
+    rec.op(&op, "ok");
+    let mut log_ops = vec![op];
+    let mut expected: Table = vec![];
+    let mut id = 0usize;
+    for (is_add, m, k) in steps {
+        if *is_add {
+            let path = paths[*k % paths.len()];
+            let r = router.add_route(method_of(*m), path.to_string(), Box::new(H { id, log: log.clone() }));
+            let full: Vec<u8> = format!("{}{}", prefix, path).into_bytes();
+            let dup = expected.iter().any(|(key, _)| key.0 == *m && key.1 == full);
+            let op = format!("route add {} {} {}", method_name(*m), hx(path.as_bytes()), id);
+            log_ops.push(op.clone());
+            match r {
+                Ok(()) => {
+                    if dup {
+                        rec.oracle_fail("C17", "a second registration of the same (method, path) was accepted", &log_ops);
+                    }
+                    expected.push(((*m, full), id));
+                    rec.op(&op, "ok");
+                }
+                Err(e) => {
+                    if !dup {
+                        rec.oracle_fail("C17", "a first registration was refused", &log_ops);
+                    }
+                    rec.nontrivial();
+                    let micro_http::RouteError::HandlerExist(key) = e;
+                    rec.op(&op, &format!("exists {}", hx(key.as_bytes())));
+                }
+            }
+            id += 1;
+        } else {
+            let u = &uris[*k % uris.len()];
+            dispatch_one(rec, &router, &log, &expected, *m, u, server_id, &log_ops);
             let v11 = u.len() % 2 == 0;
-            let mut bytes = format!("{} ", method_name(m)).into_bytes();
-            bytes.extend_from_slice(u);
-            bytes.extend_from_slice(if v11 { b" HTTP/1.1\r\n\r\n" } else { b" HTTP/1.0\r\n\r\n" });
-            let req = match Request::try_from(&bytes, None) {
-                Ok(r) => r,
-                Err(_) => continue,
-            };
-            log.lock().unwrap().clear();
-            let resp = router.handle_http_request(&req, &7u32);
-            let invoked = log.lock().unwrap().clone();
-            let mut out = Vec::new();
-            let _ = resp.write_all(&mut out);
-            // oracle: exactly the first-registered handler for (method, abs_path), once; else 404
-            let abs = req.uri().get_abs_path().as_bytes().to_vec();
-            let want: Option<usize> = expected.iter().find(|(k, _)| k.0 == m && k.1 == abs).map(|(_, id)| *id);
-            let op = format!("route req {} {} {}", method_name(m), if v11 { "1.1" } else { "1.0" }, hx(u));
-            let mut l = log_ops.clone();
-            l.push(op.clone());
-            let ok_invocation = match want {
-                Some(id) => invoked == vec![id],
-                None => invoked.is_empty() && resp.status() == StatusCode::NotFound,
-            };
-            let text = String::from_utf8_lossy(&out).to_string();
-            let stamped = text.contains(&format!("Server: {}\r\n", server_id))
-                && !text.contains("Server: handler-set\r\n")
-                && (resp.content_type() == micro_http::MediaType::ApplicationJson)
-                && (text.contains("Content-Type: application/json\r\n") || !text.contains("Content-Type:"));
-            if !ok_invocation || !stamped {
-                rec.oracle_fail("C17", &format!("dispatch: invoked {:?}, expected {:?}, stamped={}", invoked, want, stamped), &l);
-            }
-            if want.is_some() {
-                rec.count("dispatch:hit");
-            } else {
-                rec.count("dispatch:404");
-            }
-            let h = invoked.first().map(|i| i.to_string()).unwrap_or("-".into());
-            rec.op(&op, &format!("h={} resp={}", h, hx(&out)));
+            log_ops.push(format!("route req {} {} {}", method_name(*m), if v11 { "1.1" } else { "1.0" }, hx(u)));
+            rec.count("dispatch:interleaved");
         }
     }
 }
@@ -215,6 +272,38 @@ pub fn run(rec: &mut Rec, rng: &mut Rng, thorough: bool) {
             let regs: Vec<(u8, usize)> = (0..many.len()).map(|i| (((i * 7) % 3) as u8, i)).collect();
             let uris: Vec<Vec<u8>> = many.iter().step_by(3).map(|p| format!("{}{}", prefix, p).into_bytes()).collect();
             table_case_paths(rec, SERVER_IDS[0], prefix, &many_refs, &regs, &uris, None);
+        }
+    }
+    // registrations and dispatches interleaved: short keys first, a dispatch (hit / miss), then longer and shorter keys
+    {
+        let paths: [&str; 6] = ["/a", "/a/b", "/a/b/c/d/e/f/g/h", "", "/", "/zz"];
+        let mut uris: Vec<Vec<u8>> = vec![];
+        for p in ["/a", "/a/b", "/a/b/c/d/e/f/g/h", "/", "/zz", "/none"] {
+            uris.push(p.as_bytes().to_vec());
+            uris.push(format!("http://host{}", p).into_bytes());
+        }
+        for first in 0..paths.len() {
+            for later in 0..paths.len() {
+                for probe in [0usize, 10] {
+                    let mut steps: Vec<(bool, u8, usize)> = vec![(true, 0, first), (false, 0, probe)];
+                    steps.push((true, 0, later));
+                    steps.push((true, 1, later));
+                    for k in 0..uris.len() {
+                        steps.push((false, 0, k));
+                        steps.push((false, 1, k));
+                    }
+                    steps.push((true, 0, first));
+                    steps.push((false, 0, first * 2));
+                    interleaved_case(rec, SERVER_IDS[0], "", &paths, &steps, &uris);
+                }
+            }
+        }
+        for _ in 0..(if thorough { 4000 } else { 200 }) {
+            let n = 4 + rng.below(12);
+            let steps: Vec<(bool, u8, usize)> = (0..n).map(|_| (rng.chance(1, 2), rng.below(3) as u8, rng.below(12))).collect();
+            let prefix = *rng.pick(&PREFIXES);
+            let puris: Vec<Vec<u8>> = uris.iter().map(|u| { let t = String::from_utf8_lossy(u).to_string(); if t.starts_with("http://host") { format!("http://host{}{}", prefix, &t[11..]).into_bytes() } else { format!("{}{}", prefix, t).into_bytes() } }).collect();
+            interleaved_case(rec, SERVER_IDS[0], prefix, &paths, &steps, &puris);
         }
     }
     // random longer tables
